@@ -169,6 +169,44 @@ def limit_selection_problems(repo, hier):
     return sorted(set(probs)), len(stores)
 
 
+LIMIT_SAMPLES = (0, 7, 8, 9, 128, 16384, 65536, 0xFFFFFFFF)
+
+
+def limit_setter_problems(repo):
+    """-> (problems, number of ``max_pdu_length`` setters in asceprovider / dulprovider classes)"""
+    from ..peval import CannotEval, PEval, Raised, Scope, SelfObj, _Return
+    from ..srcmodel import body_without_docstring
+    probs = []
+    n = 0
+    for mname in ('asceprovider', 'dulprovider'):
+        for c in repo.module(mname).classes.values():
+            f = c.setters.get('max_pdu_length')
+            if f is None:
+                continue
+            n += 1
+            for v in LIMIT_SAMPLES:
+                pe = PEval(repo)
+                so = SelfObj(c)
+                try:
+                    env = pe.bind_params(f.node, [v], {}, so)
+                    try:
+                        pe.exec_block(body_without_docstring(f.node), Scope(f.module, c, env, so))
+                    except _Return:
+                        pass
+                except Raised as ex:
+                    probs.append('%s: setting max_pdu_length = %d raises %s' % (f.loc(), v, ex.exc))
+                    continue
+                except CannotEval as ex:
+                    raise AnalysisError('%s: the setter of max_pdu_length cannot be evaluated for %d: %s' % (f.loc(), v, ex))
+                stored = [x for x in so.attrs.values() if isinstance(x, int) and not isinstance(x, bool)]
+                if len(so.attrs) != 1 or len(stored) != 1:
+                    raise AnalysisError('%s: the setter of max_pdu_length stores %s' % (f.loc(), sorted(so.attrs)))
+                if stored[0] != v:
+                    probs.append('%s: max_pdu_length = %d is stored as %d: the limit in force is not the limit that was negotiated'
+                                 % (f.loc(), v, stored[0]))
+    return sorted(set(probs))[:4], n
+
+
 def run(repo, rep):
     from ..pitfalls import memo_rule as _memo_rule
     _memo_rule(repo, rep, 'C10', 'C10.Z1')
@@ -198,6 +236,14 @@ def run(repo, rep):
     from ..layout import LayoutExtractor
     lx = LayoutExtractor(repo)
     check_wire(lx, rep, prefix='C10', only=('MaximumLengthSubItem',), rule_map={'L1': 'X7', 'L2': 'X7', 'L3': 'X7', 'L5': 'X7', 'L6': 'X7'})
+
+    sp_, sn_ = limit_setter_problems(repo)
+    rep.rule('C10.X9', 'the limit in force is the limit that was set: when ``max_pdu_length`` of an association is a property with a '
+             'setter, the setter (evaluated by constant propagation, peval.py) stores 0 and every value from 7 on -- the smallest '
+             'P-DATA-TF that carries a byte of payload: item length 4 + context id 1 + control header 1 + 1 -- unchanged and refuses none', 1)
+    rep.notes['limit_setters'] = sn_
+    rep.check(not sp_, 'C10.X9', 'asceprovider:Association.max_pdu_length:setter', repo.module('asceprovider').relpath,
+              '%d setter(s) of max_pdu_length, each stores the legal values as given' % sn_, '; '.join(sp_))
 
     rep.rule('C10.X8', 'a P-DATA-TF that is not built from a fragment of the fragmenters (a whole message sent in one PDV) is built only '
              'on a path that bounds the message by limit - overhead, so its length never exceeds the peer\'s maximum', 1)
